@@ -13,7 +13,7 @@ open Lean Elab Command
 private def isAux (n : Name) : Bool :=
   n.isInternal || n.components.any fun c =>
     let s := c.toString
-    s.startsWith "_" || s.startsWith "match_" || s.startsWith "proof_" || s == "eq_def" ||
+    s.startsWith "_" || (s.startsWith "match_" && (s.drop 6).all Char.isDigit) || s.startsWith "proof_" || s == "eq_def" ||
     (s.startsWith "eq_" && (s.drop 3).all Char.isDigit) || s == "induct" || s == "induct_unfolding" ||
     s == "fun_cases" || s == "fun_cases_unfolding" || s == "sizeOf_spec" || s == "injEq" || s == "inj" ||
     s == "noConfusion" || s == "congr_simp" || s == "ext" || s == "ext_iff"
